@@ -214,6 +214,30 @@ var ops = []opDef{
 		s, err := crypto.AggregateBLSSignatures([]crypto.Signature{f.s1, f.s2})
 		return fmt.Sprintf("%x,%v", []byte(s), err)
 	}},
+	// second variants of the list-taking operations with DIFFERENT inputs and results: state that
+	// leaks from one call into another (scratch buffers, caches) is invisible between identical calls
+	{"BatchVerify([pk2,pk1],[s2,s1],m1,H)", func(f *fixture) string {
+		r, err := crypto.BatchVerifyBLSSignaturesOneMessage([]crypto.PublicKey{f.pk2, f.pk1}, []crypto.Signature{f.s2, f.s1}, f.m1, f.H)
+		return fmt.Sprintf("%v,%v", r, err)
+	}},
+	{"VerifyOneMessage([pk1],agg,m1,H)", func(f *fixture) string {
+		return vb(crypto.VerifyBLSSignatureOneMessage([]crypto.PublicKey{f.pk1}, f.agg1, f.m1, f.H))
+	}},
+	{"VerifyManyMessages([pk2,pk1],agg,[m1,m2],[H,H])", func(f *fixture) string {
+		return vb(crypto.VerifyBLSSignatureManyMessages([]crypto.PublicKey{f.pk2, f.pk1}, f.agg2, [][]byte{f.m1, f.m2}, []hash.Hasher{f.H, f.H}))
+	}},
+	{"AggregateBLSSignatures([s2m2,s2,s1])", func(f *fixture) string {
+		s, err := crypto.AggregateBLSSignatures([]crypto.Signature{f.s2m2, f.s2, f.s1})
+		return fmt.Sprintf("%x,%v", []byte(s), err)
+	}},
+	{"AggregateBLSPublicKeys([pk2,pk2,pk1]).Encode", func(f *fixture) string {
+		k, err := crypto.AggregateBLSPublicKeys([]crypto.PublicKey{f.pk2, f.pk2, f.pk1})
+		if err != nil {
+			return "err:" + err.Error()
+		}
+		return fmt.Sprintf("%x", k.Encode())
+	}},
+	{"BLS.Sign(sk2,m2,H)", func(f *fixture) string { s, err := f.sk2.Sign(f.m2, f.H); return fmt.Sprintf("%x,%v", []byte(s), err) }},
 	{"AggregateBLSPublicKeys([pk1,pk2]).Encode", func(f *fixture) string {
 		k, err := crypto.AggregateBLSPublicKeys([]crypto.PublicKey{f.pk1, f.pk2})
 		if err != nil {
@@ -226,12 +250,26 @@ var ops = []opDef{
 type program struct {
 	ID      int
 	Threads []int
+	// Repeat[i] > 1: thread i calls its operation that many times in a row (nil: once each); the
+	// point between two calls is a free switch point (vsched.Boundary)
+	Repeat []int
+}
+
+func (p program) times(ti int) int {
+	if ti < len(p.Repeat) && p.Repeat[ti] > 1 {
+		return p.Repeat[ti]
+	}
+	return 1
 }
 
 func (p program) String() string {
 	var n []string
-	for _, o := range p.Threads {
-		n = append(n, ops[o].Name)
+	for ti, o := range p.Threads {
+		if k := p.times(ti); k > 1 {
+			n = append(n, fmt.Sprintf("%dx %s", k, ops[o].Name))
+		} else {
+			n = append(n, ops[o].Name)
+		}
 	}
 	return strings.Join(n, " || ")
 }
@@ -240,7 +278,15 @@ func programs(thorough bool) []program {
 	var ps []program
 	for i := range ops {
 		for j := i; j < len(ops); j++ {
-			ps = append(ps, program{len(ps), []int{i, j}})
+			ps = append(ps, program{len(ps), []int{i, j}, nil})
+		}
+	}
+	// one call overlapped by two successive calls of another (or the same) operation: all ordered
+	// pairs. Catches state that is handed from one call to the next (scratch buffers, try-locks,
+	// caches) while a third call is still in progress; costs one preemption.
+	for i := range ops {
+		for j := range ops {
+			ps = append(ps, program{len(ps), []int{i, j}, []int{1, 2}})
 		}
 	}
 	if thorough {
@@ -248,7 +294,7 @@ func programs(thorough bool) []program {
 		for i := 0; i < 2; i++ {
 			for j := i; j < len(ops); j++ {
 				for k := j; k < len(ops); k++ {
-					ps = append(ps, program{len(ps), []int{i, j, k}})
+					ps = append(ps, program{len(ps), []int{i, j, k}, nil})
 				}
 			}
 		}
@@ -261,6 +307,7 @@ type violRec struct {
 	What     string   `json:"what"`
 	Program  string   `json:"program"`
 	Threads  []int    `json:"threads"`
+	Repeat   []int    `json:"repeat,omitempty"`
 	Schedule []int    `json:"schedule"`
 	Detail   []string `json:"detail"`
 }
@@ -281,7 +328,32 @@ type progResult struct {
 
 func filter(loc string) bool { return !strings.HasPrefix(loc, "bls_thresholdsign.go:") }
 
+// runOp calls operation o k times in a row; the result is the solo result unless some call differed
+// (then that call's result, so that the comparison with the solo result fails).
+func runOp(f *fixture, o, k int) string {
+	out := ""
+	for c := 0; c < k; c++ {
+		if c > 0 {
+			vsched.Boundary("between-calls")
+		}
+		r := ops[o].Do(f)
+		if c == 0 || r != out {
+			if c > 0 {
+				return fmt.Sprintf("call#%d:%s (call#1:%s)", c+1, r, out)
+			}
+			out = r
+		}
+	}
+	return out
+}
+
 func boundFor(p program, thorough bool) (int, int) {
+	if p.Repeat != nil {
+		if thorough {
+			return 2, 20000
+		}
+		return 1, 4000
+	}
 	switch {
 	case len(p.Threads) == 2 && thorough:
 		return 3, 40000
@@ -306,7 +378,8 @@ func runProgram(rc *recipe, solo []string, p program, thorough bool) progResult 
 		for ti, o := range p.Threads {
 			ti, o := ti, o
 			outs[ti] = ""
-			bodies = append(bodies, func() { outs[ti] = ops[o].Do(f) })
+			k := p.times(ti)
+			bodies = append(bodies, func() { outs[ti] = runOp(f, o, k) })
 		}
 		return bodies
 	}
@@ -325,7 +398,7 @@ func runProgram(rc *recipe, solo []string, p program, thorough bool) progResult 
 	check := func(x *vsched.Exec) {
 		lastSched, lastOuts = x.Choices(), strings.Join(outs, "|")
 		v := func(r violRec) {
-			r.Program, r.Threads, r.Schedule = p.String(), p.Threads, x.Choices()
+			r.Program, r.Threads, r.Repeat, r.Schedule = p.String(), p.Threads, p.Repeat, x.Choices()
 			if len(res.Violations) < 4 {
 				res.Violations = append(res.Violations, r)
 			}
@@ -598,7 +671,7 @@ func main() {
 	run.Set("states", run.Get("executions"))
 	run.Set("preemption_bound", map[string]int{"two_threads": b2, "three_threads": b3})
 	run.Set("max_schedules_per_program", map[string]int{"two_threads": m2, "three_threads": m3})
-	run.Set("rule", "program = 2 threads (thorough also 3 with a ComputeHash) running one operation each from the 19-operation alphabet (KMAC ComputeHash x2 on ONE shared hasher, BLS Sign/Verify/VerifyPOP/GeneratePOP/SPOCKVerify/aggregate/many-message/batch verification sharing keys, that hasher and the package-level PoP hasher, ECDSA Sign/Verify on both curves with per-thread hashers): all unordered pairs; every execution starts from FRESH shared objects (new hasher, public keys decoded from bytes and never used before), so first use / lazy initialisation is inside the explored schedules; for each program ALL schedules within the preemption bound over statement-level scheduling points in hash/kmac.go, bls.go, bls_multisig.go, spock.go, ecdsa.go; monitors: results equal the solo results, and after EVERY scheduling point a deep reflective snapshot of all shared objects and of the two frames that hold every message and signature (sub-slices with spare capacity, guard bytes) equals the initial one. executions = complete schedules; distinct_nontrivial = programs.")
+	run.Set("rule", "program = 2 threads (thorough also 3 with a ComputeHash) running one operation each from the 25-operation alphabet (list-taking operations in two variants with different inputs and results) (KMAC ComputeHash x2 on ONE shared hasher, BLS Sign/Verify/VerifyPOP/GeneratePOP/SPOCKVerify/aggregate/many-message/batch verification sharing keys, that hasher and the package-level PoP hasher, ECDSA Sign/Verify on both curves with per-thread hashers): all unordered pairs, plus all ordered pairs (x, y) as 'one call of x overlapped by two successive calls of y' (the point between the two calls is a free switch point); every execution starts from FRESH shared objects (new hasher, public keys decoded from bytes and never used before), so first use / lazy initialisation is inside the explored schedules; for each program ALL schedules within the preemption bound over statement-level scheduling points in hash/kmac.go, bls.go, bls_multisig.go, spock.go, ecdsa.go; monitors: results equal the solo results, and after EVERY scheduling point a deep reflective snapshot of all shared objects and of the two frames that hold every message and signature (sub-slices with spare capacity, guard bytes) equals the initial one. executions = complete schedules; distinct_nontrivial = programs.")
 	run.Assume("private keys have their public key computed before the threads start (lazy public-key caching of private keys is not part of the listed operations)", "interleavings at statement granularity of the instrumented Go files, sequentially consistent; calls into x/crypto, the standard library and C are atomic steps (data races inside them are invisible to this technique)", "ECDSA Sign is randomised: its output is verified, not compared")
 	run.Finish()
 }
@@ -685,12 +758,13 @@ func replay(run *ev.Run) {
 	solo := soloResults(rc)
 	f := rc.fresh()
 	init := f.snapshot()
-	p := program{0, file.Replay.Threads}
+	p := program{0, file.Replay.Threads, file.Replay.Repeat}
 	outs := make([]string, len(p.Threads))
 	var bodies []func()
 	for ti, o := range p.Threads {
 		ti, o := ti, o
-		bodies = append(bodies, func() { outs[ti] = ops[o].Do(f) })
+		k := p.times(ti)
+		bodies = append(bodies, func() { outs[ti] = runOp(f, o, k) })
 	}
 	vsched.Run(bodies, file.Replay.Schedule, func(tid int, loc string) {
 		if i, path := init.Changed(); i >= 0 {
